@@ -430,6 +430,11 @@ func (c *wsConn) call(rid, action string, params interface{}, cb func(result jso
 	}
 
 	sub.CanCall(action, func(err error) {
+		// The connection may have been closed while access was checked. No
+		// call is made on behalf of a disposed connection.
+		if err == nil && c.disposing {
+			err = reserr.ErrDisposing
+		}
 		if err != nil {
 			cb(nil, "", err)
 			return
